@@ -1053,6 +1053,42 @@ func checkHandlersStarted(c *Ctx, p *Prog, rule string) {
 				}
 			}
 			successReturnsDominated(fn, anchor, "having started the handlers")
+			// exactly HandlersQuantity of them: the go statement sits in one loop counted from 0 by 1
+			// while < HandlersQuantity (for range HandlersQuantity). One fewer and a lone busy priority
+			// never gets all the handlers it is allotted (with HandlersQuantity 1: none at all)
+			{
+				var loop map[*ssa.BasicBlock]bool
+				for _, comp := range sccs(fn.Blocks, blockSet(fn.Blocks)) {
+					if set := blockSet(comp); set[e.Stmt.Block()] {
+						loop = set
+					}
+				}
+				counted := false
+				if loop != nil {
+					for b := range loop {
+						if !boundedHeader(b, loop) {
+							continue
+						}
+						iff := b.Instrs[len(b.Instrs)-1].(*ssa.If)
+						cmp := p.NormCmp(iff.Cond, loop[b.Succs[0]])
+						if cmp == nil || cmp.Op != token.LSS || cmp.RC != 0 {
+							continue
+						}
+						bound := p.upParam(cmp.R.StripConv(), 0)
+						_, path, okp := bound.StripConv().FieldPath()
+						wantLC := int64(1) // test after the body: iter+1 < N (the rotated form of `for range N`)
+						if b != e.Stmt.Block() && b.Dominates(e.Stmt.Block()) {
+							wantLC = 0 // test before the body: iter < N
+						}
+						if ph, isPhi := cmp.L.V.(*ssa.Phi); okp && path[len(path)-1] == "HandlersQuantity" && losslessConv(bound) && isPhi && phiCountsFromZeroByOne(ph, loop) && cmp.LC == wantLC {
+							counted = true
+						}
+					}
+				}
+				if !counted {
+					problems = append(problems, "the handlers are not started by a loop counted from 0 by 1 while < HandlersQuantity (exactly HandlersQuantity handlers)")
+				}
+			}
 			cur := fn
 			for depth := 0; depth < 4 && !isCtor(cur) && !isEntry(cur); depth++ {
 				sites := p.CallSites(cur)
